@@ -27,6 +27,7 @@ ASSUMPTIONS = [
     "Real/Log values are judged against a certified enclosure [lo, u] of the least fixed point computed in exact rational arithmetic: lo = K rounded-down Kleene steps, u = inflated lo verified to be a pre-fixed point (Park); grammars for which no enclosure is found (near-critical or divergent) are discarded and counted",
     "only the direction 'budget exhausted => warning' is checked (the property does not forbid extra warnings)",
     "float32 is not exercised for recursive grammars",
+    "linear-system stream: Real/Log weights are damped by 1/4 and about half the cells are exact zeros so that most systems are sub-critical; systems for which no enclosure is certified are discarded and counted (value_checks_inconclusive_discarded); Viterbi weights are <= 0 in the log domain (no positive cycles)",
     "Newton stream: the implementation is run with kmax in {1,2,3} and tol = 1e-300 (Bool: 0), so that the stop test can only fire at an exact fixed point, where further passes change nothing (C02_newton_stationary); its unconverged result is compared inside Coq with the model's exact kmax-th Newton iterate (Real/Log: rtol 1e-6, atol 1e-9; Viterbi 1e-9; Bool exact) and with the kmax-th Kleene iterate as lower bound (C02_newton_sandwich)",
 ]
 METHODS = ["fixed-point", "newton", "linear"]
@@ -119,14 +120,18 @@ def newton_case(spec, sr, kmax, ids="explicit", rng=None, patterned=False):
 
 def newton_stream(tier, seed, violations):
     rng = random.Random(seed * 31 + 7)
-    n = int(os.environ.get("VERIF_N_NEWTON", 0)) or (45 if tier == "quick" else 500)
+    n = int(os.environ.get("VERIF_N_NEWTON", 0)) or (55 if tier == "quick" else 500)
     specs = forced_newton_specs()
+    # non-linear SCCs of several non-scalar nonterminals: Newton's inner multi_solve eliminates matrix blocks
+    for _ in range(int(os.environ.get("VERIF_N_NEWTON_LINSYS", 0)) or (10 if tier == "quick" else n // 5)):
+        specs.append(gen.linear_system_spec(rng, nonlinear=True, max_flat=6))
+    n = max(n, len(specs))
     while len(specs) < n:
         spec = gen.random_spec(rng, recursive=True, linear=False, allow_inf=False, max_nt=3, max_rules=3, max_nodes=3, max_edges=3, max_dom=2)
         spec["weights"] = {el: gen.nested_map(w, lambda v: v if v <= 1 else Fraction(1, 2)) for el, w in spec["weights"].items()}
         specs.append(spec)
     bycf = {k: [] for k in NCF.values()}; meta = {k: [] for k in NCF.values()}
-    hist = dict(kmax={1: 0, 2: 0, 3: 0}, with_nonlinear_component=0, warned=0, semiring={})
+    hist = dict(kmax={1: 0, 2: 0, 3: 0}, with_nonlinear_component=0, warned=0, semiring={}, nonlinear_matrix_block_systems=0)
     distinct = set()
     for i, spec in enumerate(specs):
         nl = nonlinear_comps(spec)
@@ -143,6 +148,7 @@ def newton_stream(tier, seed, violations):
             hist["semiring"][sr.name] = hist["semiring"].get(sr.name, 0) + 1
             if nl:
                 hist["with_nonlinear_component"] += 1
+                hist["nonlinear_matrix_block_systems"] += ("linsys" in spec["features"])
                 distinct.add((json.dumps(gen.spec_jsonable(spec), sort_keys=True), sr.name, kmax))
             k = NCF[sr.carrier()]
             bycf[k].append(val); meta[k].append((case, call, val))
@@ -163,6 +169,57 @@ def newton_stream(tier, seed, violations):
                                         failing_input_found=c in (1, 4), call=call))
     return dict(evaluations=total, distinct_nontrivial=len(distinct), kernel_reevaluated=nk, histogram=hist,
                 sample=(meta["nreal"][0][0] if meta["nreal"] else None))
+
+# ---- linear-system stream: linearly recursive SCCs of several NON-scalar nonterminals (matrix blocks) ----
+LINSYS_METHODS = ["linear", "newton", "linear", "newton", "fixed-point"]
+WHAT = {1: "returned value lies outside the certified enclosure of the least fixed point (= limit of the bounded-depth derivation sums)",
+        4: "an entry of sum_products is missing",
+        5: "method='linear' on a grammar that is not linearly recursive did not raise ValueError",
+        6: "ValueError raised although the grammar is linearly recursive / method is not 'linear'",
+        7: "iteration budget exhausted before the stopping criterion was met, but no warning was issued"}
+ORACLE = {1: "enclosure (C02_park)", 5: "expect_value_error", 6: "expect_value_error", 7: "must_warn"}
+
+def linsys_stream(tier, seed, violations, bycf, meta):
+    """gen.linear_system_spec x {Real, Log, Viterbi, Bool} x method in {linear, newton (dispatched to linear), fixed-point
+    (control)}; the cases are appended to the main stream's batches (converged values judged by the certified enclosure,
+    exact in Viterbi/Bool)"""
+    rng = random.Random(seed * 131 + 17)
+    n = int(os.environ.get("VERIF_N_LINSYS", 0)) or (40 if tier == "quick" else 1200)
+    feats = {}; distinct = set(); hist = dict(method={}, semiring={}, ids={}, patterned=0, staged=0)
+    total = 0; sample = None
+    for i in range(n):
+        spec = gen.linear_system_spec(rng)
+        key = json.dumps(gen.spec_jsonable(spec), sort_keys=True)
+        for f in spec["features"]: feats[f] = feats.get(f, 0) + 1
+        gw = grammar_wire(spec)
+        ids = ["explicit", "implicit", "mixed"][i % 3]; patterned = (i % 2 == 0); staged = (i % 7 == 3)
+        hist["ids"][ids] = hist["ids"].get(ids, 0) + 1; hist["patterned"] += patterned; hist["staged"] += staged
+        for ci, sr in enumerate(CONFIGS2):
+            rot = LINSYS_METHODS[(i + ci) % len(LINSYS_METHODS)]
+            # the cheap exact semirings get both solvers on every grammar
+            for method in ([rot] if sr.name in ("real", "log") else ["linear", "newton"]):
+                mi = METHODS.index(method)
+                kmax = 400; tol = 1e-10 if sr.name in ("real", "log") else 1e-6
+                call = "fggs.sum_products(fgg, method=%r, semiring=%r, tol=%g, kmax=%d)" % (method, sr, tol, kmax)
+                try:
+                    raised, warned, out = run_impl(spec, sr, method, tol, kmax, ids=ids, rng=rng,
+                                                   rtol=Fraction(1, 10**6), atol=Fraction(1, 10**7), patterned=patterned, staged=staged)
+                except Exception as e:
+                    violations.append(Violation("sum_products raised %r" % (e,),
+                                                case=dict(spec=gen.spec_jsonable(spec), semiring=repr(sr), method=method, tol=tol, kmax=kmax, stream="linsys"),
+                                                call=call, corr="corr:sum_products(recursive), linear-system stream",
+                                                oracle="no exception other than the documented ValueError"))
+                    continue
+                hist["method"][method] = hist["method"].get(method, 0) + 1
+                hist["semiring"][sr.name] = hist["semiring"].get(sr.name, 0) + 1
+                distinct.add((key, sr.name, method)); total += 1
+                obs = (raised, warned, (not warned) and (not raised), sorted(out.items()))
+                bycf[sr.carrier()].append((gw, weights_wire(spec, sr), (mi, 3, Fraction(tol)), K_ENCL, obs))
+                meta[sr.carrier()].append((spec, sr, method, tol, kmax, obs, "linsys"))
+                if sample is None and sr.name == "bool":
+                    sample = dict(spec=gen.spec_jsonable(spec), semiring=repr(sr), method=method, tol=tol, kmax=kmax, observed=obs)
+    return dict(evaluations=total, distinct_nontrivial=len(distinct), histogram=hist, feature_histogram=feats, sample=sample,
+                value_checks_conclusive=0, value_checks_inconclusive_discarded=0, warned_not_value_checked=0)
 
 def f2_predicate(spec, sr, method):
     return sr.name == "viterbi" and method in ("newton", "linear")
@@ -207,7 +264,8 @@ def run(tier, seed):
             chkvals = (not budget_case) and (not warned) and (not raised)
             obs = (raised, warned, chkvals, sorted(out.items()))
             bycf[sr.carrier()].append((gw, weights_wire(spec, sr), (mi, min(kmax, 3), Fraction(tol)), K_ENCL, obs))
-            meta[sr.carrier()].append((spec, sr, method, tol, kmax, obs))
+            meta[sr.carrier()].append((spec, sr, method, tol, kmax, obs, "main"))
+    lcov = linsys_stream(tier, seed, violations, bycf, meta)
     total = 0; nk = 0; inconclusive = 0; conclusive = 0
     for k, vals in bycf.items():
         codes, n_k = run_model(CF[k], vals, seed=seed, coq_sample=4 if tier == "quick" else 25, tag="c02" + k)
@@ -215,30 +273,32 @@ def run(tier, seed):
         if os.environ.get("VERIF_DEBUG"):
             import collections
             print(k, collections.Counter((m[2], m[4], c) for m, c in zip(meta[k], codes)))
-        for (spec, sr, method, tol, kmax, obs), c in zip(meta[k], codes):
+        for (spec, sr, method, tol, kmax, obs, stream), c in zip(meta[k], codes):
+            if stream == "linsys":
+                if c == 30: lcov["value_checks_inconclusive_discarded"] += 1; continue
+                if c == 0:
+                    lcov["value_checks_conclusive" if obs[2] else "warned_not_value_checked"] += 1
+                    continue
             if c == 30: inconclusive += 1; continue
             if c == 0:
                 if obs[2]: conclusive += 1
                 continue
-            case = dict(spec=gen.spec_jsonable(spec), semiring=repr(sr), method=method, tol=tol, kmax=kmax)
+            case = dict(spec=gen.spec_jsonable(spec), semiring=repr(sr), method=method, tol=tol, kmax=kmax, stream=stream)
             call = "fggs.sum_products(fgg, method=%r, semiring=%r, tol=%g, kmax=%d)" % (method, sr, tol, kmax)
-            what = {1: "returned value lies outside the certified enclosure of the least fixed point (= limit of the bounded-depth derivation sums)",
-                    4: "an entry of sum_products is missing",
-                    5: "method='linear' on a grammar that is not linearly recursive did not raise ValueError",
-                    6: "ValueError raised although the grammar is linearly recursive / method is not 'linear'",
-                    7: "iteration budget exhausted before the stopping criterion was met, but no warning was issued"}.get(c, "framework inconsistency (code %d)" % c)
+            what = WHAT.get(c, "framework inconsistency (code %d)" % c)
             fk = None
-            violations.append(Violation(what, case=case, observed=dict(raised=obs[0], warned=obs[1], values=obs[3]),
-                                        oracle={1: "enclosure (C02_park)", 5: "expect_value_error", 6: "expect_value_error", 7: "must_warn"}.get(c),
-                                        corr="C02 / corr:sum_products(recursive)", failing_input_found=c in (1, 4, 5, 6, 7), call=call, finding_key=fk))
+            violations.append(Violation(what, case=case, observed=dict(raised=obs[0], warned=obs[1], values=obs[3]), oracle=ORACLE.get(c),
+                                        corr="C02 / corr:sum_products(recursive)" + (", linear-system stream" if stream == "linsys" else ""),
+                                        failing_input_found=c in (1, 4, 5, 6, 7), call=call, finding_key=fk))
     s0 = meta["real"][0] if meta["real"] else None
     ncov = newton_stream(tier, seed, violations)
     total += ncov["evaluations"]; nk += ncov["kernel_reevaluated"]
-    cov = dict(evaluations=total, distinct_nontrivial=len(distinct) + ncov["distinct_nontrivial"], newton_stream=ncov,
-               rule="random recursive FGG specs (self-loops, mutually recursive SCCs, linear/non-linear recursion, weight-one cycles in Viterbi/Bool; Real/Log weights damped by 1/4; one sixth chain grammars with deep best derivations; half with sparse PatternedTensor weights where the values allow; a fifth built in two stages with a query in between) x {Real, Log, Viterbi, Bool} x method rotating over fixed-point/newton/linear; one third of the runs with budget kmax in {1,2} (warning expected when the first kmax+1 stopping tests provably fail), the rest with kmax=400 (values judged against the certified enclosure); all grammars are recursive hence non-trivial; distinct by spec",
+    cov = dict(evaluations=total, distinct_nontrivial=len(distinct) + ncov["distinct_nontrivial"] + lcov["distinct_nontrivial"], newton_stream=ncov, linear_system_stream=lcov,
+               rule="main stream: random recursive FGG specs (self-loops, mutually recursive SCCs, linear/non-linear recursion, weight-one cycles in Viterbi/Bool; Real/Log weights damped by 1/4; one sixth chain grammars with deep best derivations; half with sparse PatternedTensor weights where the values allow; a fifth built in two stages with a query in between) x {Real, Log, Viterbi, Bool} x method rotating over fixed-point/newton/linear; one third of the runs with budget kmax in {1,2} (warning expected when the first kmax+1 stopping tests provably fail), the rest with kmax=400 (values judged against the certified enclosure); all grammars are recursive hence non-trivial; distinct by spec. Linear-system stream (gen.linear_system_spec): linearly recursive systems of 2-3 nonterminals, at least two of them NON-scalar (arity 1-2 over domains of size 1-3, different node labels => rectangular Jacobian blocks), self-loops on a random subset (diagonal blocks with off-diagonal entries), usually one SCC through all of them (multi_solve eliminates block by block: solves with a matrix right-hand side), otherwise block-triangular; dense blocks with about 30-80% exact zeros (mixed zero/non-zero rows and columns, whole zero rows), diagonal blocks (D(u) X(u)), arity-2 blocks T (x) I, two rules for one block, and half of the systems 'functional' (partial permutations inside a nonterminal, one or two entry points between nonterminals, one or two terminating cells: unique derivations, so a lost Jacobian entry shows in Bool/Viterbi too); shuffled rule order and label positions (all elimination orders) x {Real, Log: one of linear/newton/fixed-point rotating; Viterbi, Bool: linear AND newton} x dense/patterned weights x node-id styles, one seventh built in two stages; kmax=400, values judged against the certified enclosure; distinct by (spec, semiring, method). Newton stream: additionally non-linear variants of these systems (one rule with two component edges) so that Newton's inner multi_solve eliminates matrix blocks",
                case_kinds=kinds, value_checks_conclusive=conclusive, value_checks_inconclusive_discarded=inconclusive,
                feature_histogram=feats, kernel_reevaluated=nk, kleene_steps=K_ENCL,
-               samples=[dict(spec=gen.spec_jsonable(s0[0]), semiring=repr(s0[1]), method=s0[2], tol=s0[3], kmax=s0[4], observed=s0[5])] if s0 else [],
+               samples=([dict(spec=gen.spec_jsonable(s0[0]), semiring=repr(s0[1]), method=s0[2], tol=s0[3], kmax=s0[4], observed=s0[5])] if s0 else [])
+                       + ([lcov["sample"]] if lcov.get("sample") else []),
                open_items=["(tier B, CLOSED) Newton's method is modelled (Model/Newton.v) and C02_newton_sandwich is proved for every number of edges per rule (the Taylor inequality holds monomial by monomial; nothing is _partial). Remaining about newton: the model reads a MultiTensor as an environment (absent key = zero block; all Jacobian blocks present; elimination order = the component's order) -- that the presence pattern and the order of _order_nonterminals give the same vector is C09_multi_solve_refines, not re-proved at the level of newton's absent keys; F is the spec-level step (F_model = step on the range is the open bridge below); soundness of newton_check is proved per component (C02_newton_comp_refines / C02_kleene_comp_refines), not for the fold over the SCC order; rounding (the reason for the two maximum_ clamps, which are proved to be no-ops in exact arithmetic) and the tolerance semantics of the stop test are not modelled: with tol > 0 only the upper half (result <= every pre-fixed point) is a theorem for the returned value",
                            "must_warn unrolls the first kmax+1 stopping tests (kmax in {1,2}) on tables built with the code-shaped F_model; the loop theorems (C02_fixed_point_warns_iff, C02_newton_warns_iff) are about an abstract F/close -- F_model = step on the range (C01's spe theorem lifted to recursive components) is not connected here",
                            "C02_linear_is_least_fixed_point (multi_solve J0 F0 is the least fixed point of a linearly recursive component, any elimination order / the code's order, all ordered star-semirings; instances for Bool, Real, Viterbi) takes as hypothesis that the MultiTensors J0/F0 hold lin_J0/lin_F0 at the row-major positions of the index tuples (tabulates_J0/tabulates_F0); that linear's sum_product_edges calls produce exactly these tables is C01's spe theorem and is not connected at table level (Newton's inner multi_solve calls are covered separately: C02_newton_solve_least builds the tables by tabulation, so no such hypothesis is left there); C02_scc_decomposition is proved for exactly solved components (Prop-level exact_run), not for the table-level driver with approximate per-component results"])
@@ -264,7 +324,7 @@ def replay(path):
 
 MANIFEST = dict(
     level="proof",
-    text="Coq: Kleene iterates of the grammar's equations are the bounded-depth derivation sums (C01's theorem), are monotone, stay below every pre-fixed point (Park), also when rounded down; hence [K rounded Kleene steps, verified pre-fixed point] encloses the least fixed point. Every value returned by fixed-point / newton / linear on generated recursive FGGs must meet that enclosure (exactly in Bool/Viterbi); budget-exhaustion warnings and the ValueError of method='linear' are compared with the control-flow model. Also proved: the loop shapes of fixed_point / newton warn iff the stopping test never held within the budget (the pre-repair newton loop never warns), ValueError iff method=linear meets a rule with two component edges, linearly recursive components are affine with linear's J0/F0 and multi_solve(J0, F0) -- what method='linear' and newton's downgrade return -- is their least fixed point in every ordered star-semiring (C02_linear_is_least_fixed_point, composed with C09_multi_solve_refines), SCC-by-SCC exact solution is the global least fixed point, and verdict 0 of the check implies the observed values are (Bool) / enclose (Viterbi) / meet a certified enclosure of (Real, Log) the least fixed point. Newton (tier B): Model/Newton.v models the loop of sum_product.py:newton (F0 = max(F x, x); dX = multi_solve(J x, F0 - x); x += dX; x = max(x, F0); stop test; for/else warning) with the code-shaped Jacobian and multi_solve_model; proved for all ordered commutative star-semirings (premises about sub/maximum proved for Bool, Real, Viterbi): the Taylor inequality F(x) + J(x).d <= F(x+d) for rules with any number of edges, multi_solve on the tabulated blocks = least solution of y = A y + b, and the Esparza-Kiefer-Luttenberger sandwich Kleene_k <= Newton_k <= every pre-fixed point with Newton_k increasing and Newton_k <= F(Newton_k) (C02_newton_sandwich); both maximum_ clamps are no-ops in exact arithmetic; every iterate lies below the upper end of a certified enclosure and from iterate 4j on inside it; exact stop test + no warning => the result is the least fixed point; one pass solves a linearly recursive component exactly. Correspondence: method='newton' is run with kmax in {1,2,3} (stop test disabled by tol=1e-300) on non-linear recursive grammars in Real, Log, Viterbi, Bool and its unconverged result is compared inside Coq with the model's exact kmax-th Newton iterate (rtol 1e-6; Bool exact) and with the kmax-th Kleene iterate as lower bound.",
+    text="Coq: Kleene iterates of the grammar's equations are the bounded-depth derivation sums (C01's theorem), are monotone, stay below every pre-fixed point (Park), also when rounded down; hence [K rounded Kleene steps, verified pre-fixed point] encloses the least fixed point. Every value returned by fixed-point / newton / linear on generated recursive FGGs must meet that enclosure (exactly in Bool/Viterbi); budget-exhaustion warnings and the ValueError of method='linear' are compared with the control-flow model. Also proved: the loop shapes of fixed_point / newton warn iff the stopping test never held within the budget (the pre-repair newton loop never warns), ValueError iff method=linear meets a rule with two component edges, linearly recursive components are affine with linear's J0/F0 and multi_solve(J0, F0) -- what method='linear' and newton's downgrade return -- is their least fixed point in every ordered star-semiring (C02_linear_is_least_fixed_point, composed with C09_multi_solve_refines), SCC-by-SCC exact solution is the global least fixed point, and verdict 0 of the check implies the observed values are (Bool) / enclose (Viterbi) / meet a certified enclosure of (Real, Log) the least fixed point. Newton (tier B): Model/Newton.v models the loop of sum_product.py:newton (F0 = max(F x, x); dX = multi_solve(J x, F0 - x); x += dX; x = max(x, F0); stop test; for/else warning) with the code-shaped Jacobian and multi_solve_model; proved for all ordered commutative star-semirings (premises about sub/maximum proved for Bool, Real, Viterbi): the Taylor inequality F(x) + J(x).d <= F(x+d) for rules with any number of edges, multi_solve on the tabulated blocks = least solution of y = A y + b, and the Esparza-Kiefer-Luttenberger sandwich Kleene_k <= Newton_k <= every pre-fixed point with Newton_k increasing and Newton_k <= F(Newton_k) (C02_newton_sandwich); both maximum_ clamps are no-ops in exact arithmetic; every iterate lies below the upper end of a certified enclosure and from iterate 4j on inside it; exact stop test + no warning => the result is the least fixed point; one pass solves a linearly recursive component exactly. Linear-system stream: linearly recursive components of several non-scalar nonterminals with self-loops and Jacobian blocks holding exact zeros next to non-zeros (the block elimination of multi_solve, i.e. Semiring.solve_thunks with a MATRIX right-hand side) are generated on purpose, for method linear and newton in Log, Viterbi, Bool (Real as control), and judged by the same enclosure oracle; about that pass: skipping it when the whole pivot row is zero is sound in every semiring (C02_solve_skip_all_zero_sound), testing for SOME zero entry is the same for one column (C02_solve_skip_some_zero_single_column: vector and (n,1) right-hand sides cannot tell) and wrong for two (C02_solve_skip_some_zero_refuted). Correspondence: method='newton' is run with kmax in {1,2,3} (stop test disabled by tol=1e-300) on non-linear recursive grammars in Real, Log, Viterbi, Bool and its unconverged result is compared inside Coq with the model's exact kmax-th Newton iterate (rtol 1e-6; Bool exact) and with the kmax-th Kleene iterate as lower bound.",
     note="Trusted: Coq kernel, extraction cross-checked by vm_compute, harness; converged newton results are judged by the enclosure oracle, unconverged ones (kmax <= 3) by the model of the iteration; grammars without a certified enclosure are discarded (counted in evidence).",
     technique="Coq proof (Park induction, Kleene = derivation sums, Taylor inequality + least solutions of linear systems for the Newton sandwich) + certified-enclosure oracle on implementation outputs + control-flow correspondence + model of Newton's iterates compared after a fixed number of passes",
     design_ref="DESIGN.md section 6, C02")
